@@ -98,13 +98,16 @@ StopsAtToken == (open = 0) => Scan(Append(gap, "x"), 1, "out", 0) = "token"
 
 (* ---- the forms the harness substitutes ------------------------------------- *)
 Forms == {"SP", "TAB", "LF", "CRLF", "NONE", "LINE", "LINE_NOSPACE", "INLINE", "INLINE_TIGHT", "BLOCK", "BLOCK_TIGHT", "NESTED",
-          "BLOCK_QUOTES", "LINE_KEYWORDS", "BLOCK_NONASCII", "MIXED", "NESTED_SLASH", "BLOCK_STARS", "NESTED_STAR"}
+          "BLOCK_QUOTES", "LINE_KEYWORDS", "BLOCK_NONASCII", "MIXED", "NESTED_SLASH", "BLOCK_STARS", "NESTED_STAR",
+          \* comments whose text is what the generator writes into the doc comments of the items it invents
+          "LINE_ANON", "INLINE_INNER"}
 AbstractOf(f) ==
     CASE f \in {"SP", "TAB"} -> <<"s">>
       [] f = "LF" -> <<"n">>
       [] f = "CRLF" -> <<"s", "n">>                        \* CR is white space
       [] f = "NONE" -> <<>>
-      [] f \in {"LINE", "LINE_KEYWORDS"} -> <<"s", "d", "d", "s", "x", "s", "x", "n">>
+      [] f = "INLINE_INNER" -> <<"d", "d", "s", "x", "s", "x", "s", "d", "d">>
+      [] f \in {"LINE", "LINE_KEYWORDS", "LINE_ANON"} -> <<"s", "d", "d", "s", "x", "s", "x", "n">>
       [] f = "LINE_NOSPACE" -> <<"d", "d", "x", "n">>
       [] f = "INLINE" -> <<"s", "d", "d", "s", "x", "s", "d", "d", "s">>
       [] f = "INLINE_TIGHT" -> <<"d", "d", "x", "d", "d">>
